@@ -1,0 +1,22 @@
+"""Verification hook points (inactive unless STACKSCOPE_VERIF=1 is set in the
+environment when stackscope is imported).
+
+A verification harness may assign a callable to ``hook``; it is then invoked
+with a tag and a dict of details at a few points inside stackscope where the
+interleaving with other threads matters, so that the harness can schedule
+other threads deterministically there. With the environment variable unset,
+the call sites reduce to a single attribute test and no call is made.
+"""
+
+import os
+from typing import Any, Callable, Dict, Optional
+
+ENABLED = os.environ.get("STACKSCOPE_VERIF") == "1"
+
+hook: Optional[Callable[[str, Dict[str, Any]], None]] = None
+
+
+def checkpoint(tag: str, **info: Any) -> None:
+    fn = hook
+    if fn is not None:
+        fn(tag, info)
